@@ -78,3 +78,22 @@ package loadbalance
 //@   requires sessions != nil
 //@   ensures live: result != nil ==> hadkey(syncmapp(sessions), result) && !ufb("session.closed", result)
 //@   ensures nil-only-if-none-open: result == nil ==> foralls(s, getty.Session, hadkey(syncmapp(sessions), s) ==> ufb("session.closed", s))
+
+// Round robin: the open sessions are collected by remote address, the addresses are sorted and the
+// next one (process-wide counter modulo the number of distinct addresses) is looked up again.
+//@ ext sort.Strings
+//@   modifies elems(x)
+//@   ensures forall(i, 0, len(x), 0 <= ufi("sort.perm", i) && ufi("sort.perm", i) < len(x) && x[i] == old(x[ufi("sort.perm", i)]))
+// CAS loop on a process-wide counter: trusted (atomics), the result is a non-negative int.
+//@ func getPositiveSequence
+//@   trusted
+//@   ensures result >= 0
+
+//@ func RoundRobinLoadBalance
+//@   prop C19
+//@   requires sessions != nil
+//@   ensures live: result != nil ==> hadkey(syncmapp(sessions), result) && !ufb("session.closed", result)
+//@   ensures nil-only-if-none-open: result == nil ==> foralls(s, getty.Session, hadkey(syncmapp(sessions), s) ==> ufb("session.closed", s))
+//@   range 1 invariant sizes: len(adderToSession) <= len(adders) && adderToSession != nil
+//@   range 1 invariant members: forall(i, 0, len(adders), adderToSession[adders[i]] != nil && hadkey(syncmapp(sessions), adderToSession[adders[i]]) && !ufb("session.closed", adderToSession[adders[i]]))
+//@   range 1 invariant closed-so-far: len(adderToSession) == 0 ==> foralls(s, getty.Session, visited(s) ==> ufb("session.closed", s))
